@@ -1,6 +1,7 @@
 package main
 
 import (
+	"os"
 	"go/token"
 	"go/types"
 	"strings"
@@ -554,7 +555,10 @@ func c04r4b(c *Ctx) {
 		for root.Parent() != nil {
 			root = root.Parent()
 		}
-		if root.Pkg == nil || !scope[root.Pkg.Pkg.Path()] {
+		if root.Pkg == nil || (!scope[root.Pkg.Pkg.Path()] && os.Getenv("VERIF_R4B_WIDE") == "") {
+			continue
+		}
+		if strings.HasSuffix(p.Fset.Position(fn.Pos()).Filename, "_test.go") || strings.Contains(root.Pkg.Pkg.Path(), "/test") {
 			continue
 		}
 		n++
